@@ -3,7 +3,8 @@
    sizes s by rank and rooms r sorted descending).  The theorems use only the descending order of the ROOMS and rank-wise fit, so they
    hold for every order the unstable sort may choose among courses of equal size. *)
 From Coq Require Import List Arith Lia Bool Permutation.
-Require Import Rooms18 RoomsModel RoomsCourse.
+Require Import Rooms18 RoomsModel RoomsCourse HousedLink.
+Require HP1 Cao1 Rooms Node Solve EngP2 C06.
 Import ListNotations.
 Open Scope nat_scope.
 
@@ -45,6 +46,21 @@ Proof. exact possible_nonempty. Qed.
 Theorem C18_rooms_file : forall raw, Permutation (kinds_read raw) raw /\ Permutation (rooms_of_kinds (kinds_read raw)) (rooms_of_kinds raw).
 Proof. intros raw. split; [apply kinds_read_perm|apply rooms_read_perm]. Qed.
 
+(* composed with C06: for EVERY solution the search can end with under a room list (any worker count and interleaving), the possible-room
+   listing computed from that solution and that room list offers only usable rooms, and offers at least one to every course that
+   takes place.  (The precondition of the listing theorems is exactly what C06 proves about solutions: HousedLink.) *)
+Theorem C18_for_solutions : forall courses parts esize shrinkf rs smin smax k st a,
+  Solve.SReach courses parts esize shrinkf (Some rs) smin smax k st -> EngP2.best Cao1.node Cao1.assignment st = Some a ->
+  let sizes := map (Rooms.eff_size courses esize a) (seq 0 (Cao1.nc courses)) in
+  housed_desc sizes rs = true /\
+  (forall c v, c < length sizes -> In v (nth c (possible sizes rs) []) -> UsableCourse sizes rs c v) /\
+  (forall c, c < length sizes -> 0 < nth c sizes 0 -> nth c (possible sizes rs) [] <> []).
+Proof.
+  intros courses parts esize shrinkf rs smin smax k st a R Hb sizes.
+  assert (H : housed_desc sizes rs = true) by (apply housed_link; apply (C06.C06 courses parts esize shrinkf rs smin smax k st a R Hb)).
+  split; [exact H|]. split; [intros c v; apply (possible_usable sizes rs H)|intros c; apply (possible_nonempty sizes rs H)].
+Qed.
+
 (* room kinds: a listed kind name always belongs to a kind with positive quantity whose capacity is one of the listed sizes *)
 Theorem C18_kinds : forall ks sizes c n,
   In n (nth c (kind_names ks sizes) []) ->
@@ -65,10 +81,11 @@ Qed.
 Example C18_example : dedup (listed [5;3;0] [6;5;3] 0) = [6; 5] /\ dedup (listed [5;3;0] [6;5;3] 1) = [6; 5; 3] /\ listed [5;3;0] [6;5;3] 2 <> [].
 Proof. vm_compute. repeat split; discriminate. Qed.
 
-Check C18_rooms_file. Check C18. Check C18_nonempty. Check C18_kinds. Check C18_course_level. Check C18_rooms_permuted. Check C18_course_nonempty.
+Check C18_for_solutions. Check C18_rooms_file. Check C18. Check C18_nonempty. Check C18_kinds. Check C18_course_level. Check C18_rooms_permuted. Check C18_course_nonempty.
 Print Assumptions C18.
 Print Assumptions C18_nonempty.
 Print Assumptions C18_kinds.
+Print Assumptions C18_for_solutions.
 Print Assumptions C18_rooms_file.
 Print Assumptions C18_course_level.
 Print Assumptions C18_rooms_permuted.
